@@ -598,6 +598,13 @@ func init() {
 		}
 		return mkStr(out)
 	}
+	intrinsics["strings.Repeat"] = func(e *Exec, args []Value, st string) Value {
+		n := args[1].(*Term)
+		if !n.IsConst() {
+			unsup("strings.Repeat with symbolic count")
+		}
+		return StrV(strings.Repeat(mustStr(args[0], "strings.Repeat"), int(sext(n.V, 64))))
+	}
 	intrinsics["strings.ReplaceAll"] = func(e *Exec, args []Value, st string) Value {
 		return StrV(strings.ReplaceAll(mustStr(args[0], "ReplaceAll"), mustStr(args[1], "ReplaceAll"), mustStr(args[2], "ReplaceAll")))
 	}
